@@ -18,6 +18,9 @@ const hotPkg = "pkg/hotreload"
 const hotPath = modPath + "/pkg/hotreload"
 
 func runC19(c *Ctx) {
+	c.rule("C19-R6", "PAIR: every Lock/RLock in cmd/glyph and pkg/hotreload is released on every path to a return: a failed reload cannot leave the manager's mutex held and block all later reloads")
+	c.Sites["C19-R6#acquire-sites"] = lockReleaseAudit(c, "C19-R6", []string{glyphCmd, "pkg/hotreload"})
+	c.floor("C19-R6", 6)
 	c.rule("C19-R5", "STALE: nothing the dev server builds once per process (a sync.Once body in cmd/glyph, pkg/hotreload, pkg/server) is computed from a package variable that a reload assigns again (type definitions, route tables): a later valid edit would otherwise not take effect for that part")
 	c.Sites["C19-R5#once-bodies"] = staleOnceAudit(c, "C19-R5", []string{glyphCmd, "pkg/hotreload", "pkg/server"})
 	c.ob("C19-R5", glyphCmd+"#no-once-built-state-from-reloadable-variables", token.NoPos, true, "")
